@@ -129,6 +129,26 @@ func c07JoseDecoders(c *h.Ctx) []decoder {
 			jwkTexts = append(jwkTexts, b)
 		}
 	}
+	// keys whose integer fields have every length: an RSA exponent / modulus of 0..70 octets (leading zeros, all ones),
+	// EC coordinates shorter and longer than the curve's size, an oct key of 0 and of 1000 octets; the same keys embedded as
+	// `jwk` in the protected header of a signed object
+	for _, n := range []int{0, 1, 3, 4, 5, 8, 9, 16, 17, 64, 67, 70} {
+		for _, fill := range []byte{0x00, 0xff, 0x01} {
+			e := make([]byte, n)
+			for i := range e {
+				e[i] = fill
+			}
+			if n > 0 {
+				e[n-1] |= 1
+			}
+			jwkTexts = append(jwkTexts, []byte(fmt.Sprintf(`{"kty":"RSA","n":"%s","e":"%s"}`, jose.VerifBase64URLEncode(ks.rsa[0].PublicKey.N.Bytes()), jose.VerifBase64URLEncode(e))))
+			jwkTexts = append(jwkTexts, []byte(fmt.Sprintf(`{"kty":"RSA","n":"%s","e":"AQAB"}`, jose.VerifBase64URLEncode(e))))
+			jwkTexts = append(jwkTexts, []byte(fmt.Sprintf(`{"kty":"EC","crv":"P-256","x":"%s","y":"%s"}`, jose.VerifBase64URLEncode(e), jose.VerifBase64URLEncode(e))))
+			jwkTexts = append(jwkTexts, []byte(fmt.Sprintf(`{"kty":"oct","k":"%s"}`, jose.VerifBase64URLEncode(e))))
+			hdr := fmt.Sprintf(`{"alg":"RS256","jwk":{"kty":"RSA","n":"%s","e":"%s"}}`, jose.VerifBase64URLEncode(ks.rsa[0].PublicKey.N.Bytes()), jose.VerifBase64URLEncode(e))
+			jwsTexts = append(jwsTexts, []byte(jose.VerifBase64URLEncode([]byte(hdr))+".cGF5bG9hZA.c2ln"))
+		}
+	}
 	c.Note("C07 jose seeds: " + h.Trunc(string(jwsTexts[0]), 60))
 	return []decoder{
 		{name: "jose.ParseSigned+Verify", maxLen: 8192,
